@@ -172,7 +172,13 @@ def gen_roundtrip(rng, maxbuf):
     return s.lines
 
 LIFE = ['new', 'newopen', 'open', 'openfail', 'close', 'stop', 'with', 'withclose', 'withx', 'del', 'write', 'tell', 'openfull',
-        'withcont', 'withbrk', 'wnew', 'wnewbrk', 'wcall', 'wnew0', 'wnewfail']
+        'withcont', 'withbrk', 'withret', 'wnew', 'wnewbrk', 'wnewret', 'wcall', 'wnew0', 'wnewfail', 'copyc']
+# Known findings (KNOWN_FINDINGS.txt): generated inputs stay out of their regions.
+#  KF-C20-with-early-exit: a with block left by break / return / an exception while its File is open -> every generated body
+#    that is left early closes the File as its last operation (corpus/kf_c20_with_early_exit.ops holds the open ones);
+#  KF-C20-copy-aliases-handle: copy / assign while source or target is open -> every generated copy / assign is directly
+#    preceded by `close` of the objects involved (corpus/kf_c20_copy_aliases.ops holds the open ones).
+EARLY = ('brk', 'throw', 'ret')
 def life_lines(o, k, sym, rng):
     if sym == 'new': return [f'new {o}']
     if sym == 'newopen': return [f'new {o} {k} w']
@@ -182,13 +188,19 @@ def life_lines(o, k, sym, rng):
     if sym == 'stop': return [f'stop {o}']
     if sym == 'with': return [f'with {o} 1', f'write {o} 3 1']
     if sym == 'withclose': return [f'with {o} 2', f'tell {o}', f'close {o}']
-    if sym == 'withx': return [f'withx {o} 1', f'write {o} 2 2']
+    if sym == 'withx': return [f'withx {o} 2', f'write {o} 2 2', f'close {o}']
     if sym == 'del': return [f'del {o}']
     if sym == 'withcont': return [f'withv {o} cont 1', f'write {o} 3 1']
-    if sym == 'withbrk': return [f'withv {o} brk 1', f'write {o} 2 7']
+    if sym == 'withbrk': return [f'withv {o} brk 2', f'write {o} 2 7', f'close {o}']
+    if sym == 'withret': return [f'withv {o} ret 2', f'write {o} 1 3', f'stop {o}']
     # the source expression of with constructs the File (the slot must be free: delete first)
     if sym == 'wnew': return [f'del {o}', f'withnew {o} {k} w fall 1', f'write {o} 3 1']
-    if sym == 'wnewbrk': return [f'del {o}', f'withnew {o} {k} w+ brk 1', f'write {o} 2 5']
+    if sym == 'wnewbrk': return [f'del {o}', f'withnew {o} {k} w+ brk 2', f'write {o} 2 5', f'close {o}']
+    if sym == 'wnewret': return [f'del {o}', f'withcall {o} {k} w ret 2', f'write {o} 3 6', f'close {o}']
+    # copy / assign of a File that was closed just before (the default memcpy): the copy is an independent closed File
+    if sym == 'copyc':
+        p = 4 + (o - 4 + 1) % 4 if o >= 4 else 4
+        return [f'close {o}', f'copy {o} {p}', f'close {p}', f'assign {o} {p}', f'open {p} {(k + 1) % NFILE} w', f'write {p} 2 3', f'tell {o}', f'del {p}']
     if sym == 'wcall': return [f'del {o}', f'withcall {o} {k} a cont 1', f'write {o} 4 8']
     if sym == 'wnew0': return [f'del {o}', f'withnew0 {o} fall 1', f'open {o} {k} w']
     if sym == 'wnewfail': return [f'del {o}', f'withnew {o} 90 w fall 1', f'tell {o}']
@@ -200,7 +212,7 @@ def life_lines(o, k, sym, rng):
 def gen_lifecycle_exhaustive(maxlen):
     """every order of the life-cycle operations up to `maxlen` on one heap object (and the same on a stack object)"""
     import itertools, random
-    alpha = ['newopen', 'open', 'close', 'stop', 'with', 'withx', 'del', 'openfull', 'wnew', 'wnewbrk']
+    alpha = ['newopen', 'open', 'close', 'stop', 'with', 'withx', 'del', 'openfull', 'wnew', 'wnewbrk', 'copyc']
     out = []
     rng = random.Random(5)
     for n in range(1, maxlen + 1):
@@ -220,7 +232,7 @@ def gen_lifecycle_random(rng):
         s += life_lines(o, k if sym != 'open' else (o % NFILE), sym, rng)
     return s
 
-LEAVES = ['fall', 'fall', 'fall', 'cont', 'brk', 'throw']
+LEAVES = ['fall', 'fall', 'fall', 'cont', 'brk', 'throw', 'ret']
 def with_stmt(rng, free, files, depth, maxbuf):
     """one with statement whose source expression is `kind`, on a free heap slot and a free file, followed by the ops that
     look at what it left behind (dump, read back, scan, del); `free` / `files` are consumed while the block is open"""
@@ -251,18 +263,22 @@ def with_stmt(rng, free, files, depth, maxbuf):
         elif r < 0.92: body.append(f'seek {o} 0 set')
         elif r < 0.96: body.append(f'eof {o}')
         else: body.append(f'del {o}')                                   # refused by both sides inside the object's own block
+    if leave in EARLY: body.append(f'{rng.choice(["close", "close", "stop"])} {o}')   # left early: never with the File open (KF-C20-with-early-exit)
     hdr = {'withnew': f'withnew {o} {k} {mode} {leave} {len(body)}', 'withcall': f'withcall {o} {k} {mode} {leave} {len(body)}',
            'withnew0': f'withnew0 {o} {leave} {len(body)}', 'withv': f'withv {o} {leave} {len(body)}'}[kind]
     if kind != 'withv' and rng.random() < 0.06:                        # a constructor that throws: the loop is never entered
         hdr = f'{kind if kind != "withnew0" else "withnew"} {o} {rng.choice([90, k])} {rng.choice(["w", "x", "r"]) if rng.random() < .5 else "x"} {leave} {len(body)}'
     post.insert(0, f'tell {o}')
-    if leave in ('brk', 'throw') and rng.random() < 0.7: post.append(f'{rng.choice(["close", "stop"])} {o}')
+    if leave in EARLY and rng.random() < 0.7: post.append(f'{rng.choice(["close", "stop"])} {o}')
     post.append(f'dump {k}')
     if rng.random() < 0.7:
         post.append(f'open {o} {k} {rng.choice(["r", "r+", "rb"])}')
         if text: post += [f'scan {o}'] * rng.randrange(1, 4)
         else: post += [f'read {o} {c}' for c in chunking(rng, min(total, 3 * BUF) + rng.choice([0, 0, 1]), allow_zero=False)[:6]]
         post += [f'eof {o}', f'close {o}'] if rng.random() < 0.6 else []
+    if free and rng.random() < 0.15:                                   # a copy of the File, closed just before: an independent File
+        p = free[0]
+        post += [f'close {o}', f'copy {o} {p}', f'open {p} {k} a', f'write {p} 1 1', f'tell {o}', f'del {p}', f'dump {k}']
     if rng.random() < 0.8: post.append(f'del {o}'); free.append(o)
     files.append(k)
     return pre + [hdr] + body + post
@@ -357,6 +373,7 @@ def soup_step(s, rng, maxbuf, depth=0):
         at = len(s.lines); s.emit('?'); s.inwith.append(o)
         if entered:
             for _ in range(rng.randrange(0, 4)): soup_step(s, rng, maxbuf, depth + 1)
+            if leave in EARLY: s.close(o)              # left early: never with the File open (KF-C20-with-early-exit)
         s.inwith.pop()
         s.lines[at] = f'{hdr} {len(s.lines) - at - 1}'
         if leave in ('fall', 'cont') and s.exists[o]: s.do_close_state(o)
@@ -376,9 +393,17 @@ def soup_step(s, rng, maxbuf, depth=0):
     elif r < 0.86: s.emit(f'tell {o}')
     elif r < 0.90: s.emit(f'eof {o}')
     elif r < 0.93: s.flush(o)
-    elif r < 0.95:
+    elif r < 0.94:
         k = rng.randrange(NFILE); s.emit(f'{rng.choice(["dump", "dump", "rm"])} {k}')
         if s.lines[-1].startswith('rm') and not s.file_busy(k): s.flen.pop(k, None)
+    elif r < 0.955:
+        # copy / assign (File: the default memcpy) of Files closed just before (an open one: KF-C20-copy-aliases-handle)
+        free = [p for p in range(4, 8) if not s.exists[p]]
+        if free and rng.random() < 0.6:
+            p = rng.choice(free); s.close(o); s.emit(f'copy {o} {p}'); s.exists[p] = True; s.open[p] = None
+        else:
+            q = rng.choice(ex)
+            if q != o: s.close(o); s.close(q); s.emit(f'assign {o} {q}')
     elif r < 0.975:
         if st and st['last'] == 'r' and not st['eof']: s.seek_within(o)
         s.emit(f'print {o} {rng.randrange(-10**9, 10**9)}')
@@ -393,12 +418,39 @@ def gen_soup(rng, nops, maxbuf):
     for _ in range(nops): soup_step(s, rng, maxbuf)
     return s.lines
 
+def gen_copy(rng, maxbuf):
+    """copy / assign of closed Files (File has no Copy / Assign instance: alloc + memcpy): every object afterwards is an
+    independent File — open both on different files, write, read back; the participants are always closed just before"""
+    s = Sim(rng)
+    objs = [rng.randrange(4)]
+    for _ in range(rng.randrange(2, 9)):
+        o = rng.choice(objs); r = rng.random()
+        free = [p for p in range(4, 8) if not s.exists[p]]
+        if r < 0.3 and free:
+            p = rng.choice(free); s.close(o, rng.choice(['close', 'stop'])); s.emit(f'copy {o} {p}'); s.exists[p] = True; s.open[p] = None; objs.append(p)
+        elif r < 0.45 and len(objs) > 1:
+            a, b = rng.sample(objs, 2); s.close(a); s.close(b); s.emit(f'assign {a} {b}')
+        elif r < 0.7:
+            k = s.free_file(o)
+            if k is not None: s.do_open(o, k, rng.choice(['w', 'w+', 'a', 'r', 'r+']))
+        elif r < 0.85:
+            s.write(o, rng.choice([0, 1, 5, 300, BUF, BUF + 1]))
+        elif r < 0.9 and o >= 4 and len(objs) > 1:
+            s.delete(o); objs.remove(o)
+        else:
+            st = s.open[o]
+            if st:
+                k = st['file']; s.close(o); s.emit(f'dump {k}'); s.do_open(o, k, 'r'); s.read(o, rng.choice([1, 5, 301])); s.emit(f'eof {o}')
+    for o in objs: s.emit(f'tell {o}')
+    return s.lines
+
 def gen_closed(rng):
     """every operation on Files that are not open: never opened, closed, closed twice, failed open, after with"""
     lines = []
     o = rng.randrange(8)
     if o >= 4: lines.append(f'new {o}')
     how = rng.randrange(6)
+    if o >= 4 and rng.random() < 0.3: lines += [f'new1 {(o - 3) % 4 + 4} {rng.choice([0, 1, 90, 91])}', f'tell {(o - 3) % 4 + 4}']
     if how == 1: lines += [f'open {o} 0 w', f'close {o}']
     elif how == 2: lines += [f'open {o} 0 w', f'stop {o}', f'close {o}']
     elif how == 3: lines += [f'open {o} 90 w']
@@ -420,9 +472,16 @@ class C20(Spec):
                  'File_Close facts regenerated from the source each run; differential check of the model and of libc-on-a-twin-file against the '
                  'real library with link-time interposition of the stdio functions')
     level_text = ('Theorems C20_closed_refused (every operation on a File that is not open raises IOError and makes no stdio call, for every stdio '
-                  'implementation), C20_close_once (for every history of open/close/reopen/stop/with/del/read/write… on one object and for any number '
-                  'of objects sharing one library, the log of stdio calls is well bracketed: each successful fopen is followed by exactly one fclose of '
-                  'that handle before the next fopen, no call ever uses a handle that is not the live one, a deleted or closed object holds nothing), '
+                  'implementation), C20_close_once (for every history of open/close/reopen/stop/with/del/read/write… on one object the log of stdio '
+                  'calls is well bracketed: each successful fopen is followed by exactly one fclose of that handle before the next fopen, no call '
+                  'ever uses a handle that is not the live one, a deleted or closed object holds nothing), C20_close_once_system (any number of objects '
+                  'over one library, stated OVER HANDLES for the log of the whole process: for every stdio that never hands out a handle that is still '
+                  'open and every interleaving of new/del/operations/copy/assign in which no File is copied or assigned while it or its target is open, '
+                  'no call is made on a handle that is not open, every fclose ends the life of an open handle, distinct objects hold distinct handles and '
+                  'the open handles are exactly the held ones: nothing leaked, nothing stale; plus the per-object form), C20_copy_aliases_refuted '
+                  '(known finding KF-C20-copy-aliases-handle: without that hypothesis the statement is false — copy/assign are the default memcpy and '
+                  'duplicate or overwrite the FILE*: one fopen, two fcloses, a closed handle passed to fwrite; or a handle never closed), '
+                  'C20_wrappers_transparent (for every stdio, what swrite/sread/stell/seof/sseek return is exactly what the one stdio call returned), '
                   'C20_roundtrip_reopen / C20_roundtrip_seek (under the reference stdio, bytes written in any chunking are read back identical in any '
                   'chunking after reopen or seek to any offset from any origin; stell equals the byte count, seof is set exactly by an over-read), '
                   'C20_random_access (seek anywhere, write, seek back, read: identical), C20_print_transport (every fragment print_to hands to the '
@@ -431,9 +490,13 @@ class C20(Spec):
                   'The `with` construct is modelled as the for loop of with_in, clause by clause, over source expressions with side effects '
                   '(a File constructed in the header) and the four ways out of a body: C20_with_close_once_system (close-once for every program with '
                   'nested with blocks), C20_with_protocol / C20_with_evaluated_once (for every program the source expression of each block is '
-                  'evaluated exactly once and every stop_in is applied to the object that evaluation returned), C20_with_closes_bound and '
-                  'C20_with_inline_balanced (for every body, the File constructed in the header ends closed, each fopen matched by one fclose of that '
-                  'handle), C20_with_inline_roundtrip (what the body wrote is in the file afterwards, one fopen / one fclose of that handle), '
+                  'evaluated exactly once and every stop_in is applied to the object that evaluation returned), C20_with_close_once_global (the log of '
+                  'the whole process over handles, for every program), C20_with_closes_bound_partial and '
+                  'C20_with_inline_balanced_partial (for every body, the File constructed in the header ends closed, each fopen matched by one fclose of that '
+                  'handle — when the block is left through its step clause: falling off the end or continue), C20_with_early_exit_refuted / '
+                  'C20_with_early_exit_leaves_open (known finding KF-C20-with-early-exit: break, return and an exception leave the loop without stop_in, '
+                  'the stream stays open; the full statement C20_with_closes_statement is false), '
+                  'C20_with_inline_roundtrip_partial (what the body wrote is in the file afterwards, one fopen / one fclose of that handle), '
                   'C20_with_stop_on_expression_refuted (the variant `X = stop_in(S)` re-evaluates the expression: a second File is opened and closed, '
                   'the first never, the file is truncated). C20_with_macro_clauses ties the three clauses to include/Cello.h on every run. '
                   'The facts about File.c the proofs rest on (guard before the first stdio call in every wrapper; File_Close guarded and always dropping '
@@ -447,7 +510,10 @@ class C20(Spec):
             '(c) every operation on Files closed in six different ways; (d) print_to/scan_from of Ints, mixed white space; (e) /dev/full: failing '
             'fflush/fclose; (f) random mixtures over 8 objects and 6 files; (g) run first: with blocks whose source expression constructs the File '
             '(inline new(File, path, mode), new(File), a call-counting function) or is a variable, bodies that write / print / close / reopen / '
-            'nest further blocks, left by falling off the end, continue, break or an exception, then dump + read back / scan of what they left. non-trivial item = an op whose observation shows a stdio call or a '
+            'nest further blocks, left by falling off the end, continue, or — after closing the File — break, return or an exception, then dump + '
+            'read back / scan of what they left; (h) copy / assign of Files closed just before, both objects then used independently; '
+            'new(File, path) with one argument. The two known-finding regions (early exit with the File open; copy / assign of an open File) are '
+            'exercised by corpus/kf_c20_*.ops only. non-trivial item = an op whose observation shows a stdio call or a '
             'refusal on a closed File; distinct = distinct (op text, observation).')
     trusted_base = ('translate/g_file.py (regex over src/File.c, src/Start.c, the three clauses of with_in)',
                     'harness/h_file.c + lean/Driver/File.lean (correspondence is testing)',
@@ -458,8 +524,16 @@ class C20(Spec):
                    'scan_from only on plain decimal text (no leading zeros / 0x, at most 18 digits)',
                    '/dev/full: write-only modes, at most 1024 buffered bytes, no seek', 'no write at an offset beyond 1 MiB',
                    'an object is not deleted inside its own with-block (use after free)',
-                   'a with block left by break or by an exception does not run stop_in (that is what the for loop of with_in does): the stream stays '
-                   'open until sclose / del / the collector; modelled as such, not reported',
+                   'known finding KF-C20-with-early-exit: a with block left by break, return or an exception does not run stop_in (that is what the '
+                   'for loop of with_in does): the stream stays open until sclose / del / the collector.  Modelled as such (Leave.brk/.ret/.throw), '
+                   'refuted as a statement (C20_with_early_exit_refuted), reported by the oracle under sig=kf-c20-with-early-exit; generated bodies '
+                   'that are left early close their File first, the open case is corpus/kf_c20_with_early_exit.ops',
+                   'known finding KF-C20-copy-aliases-handle: copy / assign of a File while source or target is open duplicate or overwrite the FILE* '
+                   '(File has no Assign / Copy instance: the default memcpy).  Modelled as such (MOp.copy / MOp.assign), excluded from the close-once '
+                   'theorems by the explicit hypothesis cleanRun / cleanList, refuted (C20_copy_aliases_refuted), reported under '
+                   'sig=kf-c20-copy-aliases-handle; generated copy / assign ops are directly preceded by close of the objects involved, the open '
+                   'case is corpus/kf_c20_copy_aliases.ops.  The theorem over handles additionally assumes of stdio that fopen never returns a '
+                   'handle that is still open (freshCalls, a hypothesis on the log)',
                    'a File constructed in the header of a with block is kept reachable by the harness (slot objs[o]) so that the collector does not '
                    'finalise it at a time the model cannot predict')
     def cases(self, rng, tier, boost=1):
@@ -484,6 +558,7 @@ class C20(Spec):
         pack('life', joined, 1)
         pack('lifer', [gen_lifecycle_random(rng) for _ in range((100 if quick else 900) * boost)], 1)
         pack('closed', [gen_closed(rng) for _ in range((40 if quick else 250) * boost)], 1)
+        pack('copy', [gen_copy(rng, maxbuf) for _ in range((60 if quick else 400) * boost)], 1)
         pack('text', [gen_text(rng) for _ in range((60 if quick else 500) * boost)], 1)
         pack('dev', [gen_device(rng) for _ in range((50 if quick else 350) * boost)], 1)
         pack('soup', [gen_soup(rng, rng.randrange(20, 120 if quick else 400), maxbuf) for _ in range((150 if quick else 900) * boost)], 1)
@@ -493,6 +568,9 @@ class C20(Spec):
         for l in m_out.split('\n'):
             if l.startswith('R bracketed=') and 'true' not in l:
                 return 'the model\'s own log of stdio calls is not well bracketed (track = none) on this history'
+            if l.startswith('R gbracketed=') and 'gbracketed=true' not in l:
+                return ('the model\'s own log of the whole process is rejected by the automaton over handles (gtrack = none) on this '
+                        'history: a handle was used after its fclose or closed twice')
             if l.startswith('R withproto=') and 'true' not in l:
                 return ('the model\'s own with loops break the protocol (wtrack = none) on this history: a source expression was evaluated '
                         'again by the step clause, or stop_in received an object that is not the loop variable')
